@@ -87,13 +87,14 @@ func (verify *VerifyServerController) Handle(in util.Container) (util.Container,
 // - B: server public key
 // - signature: from server session public key, server name, client session public key
 func (verify *VerifyServerController) handlePairVerifyStart(in util.Container) (util.Container, error) {
-	verify.step = VerifyStepStartResponse
-
 	clientPublicKey := in.GetBytes(TagPublicKey)
 	log.Debug.Println("->     A:", hex.EncodeToString(clientPublicKey))
 	if len(clientPublicKey) != 32 {
+		// The request is rejected, a finish request must not follow it
 		return nil, errInvalidClientKeyLength
 	}
+
+	verify.step = VerifyStepStartResponse
 
 	var otherPublicKey [32]byte
 	copy(otherPublicKey[:], clientPublicKey)
